@@ -356,7 +356,7 @@ def run_linear(case, rng, cls):
     Mspatial = [-pf.diffusionTerm(Df), pf.convectionUpwindTerm(uf), pf.linearSourceTerm(beta)]
 
     def solve(gamma, cdata, old):
-        sp2 = {'periodic': spec['periodic'], 'sides': {s: dict(v) for s, v in spec['sides'].items()}}
+        sp2 = {'periodic': spec['periodic'], 'sides': {s: {k_: x_ for k_, x_ in v.items() if k_ != 'util'} for s, v in spec['sides'].items()}}
         for s in sp2['sides']:
             sp2['sides'][s]['c'] = cdata[s]
         phi = pf.CellVariable(m, old.copy(), gen.make_bc(pf, m, g, sp2))
